@@ -44,7 +44,7 @@ CONFIG = dict(
         "C15_roundtrip", "C15_roundtrip_data", "C15_accept_iff_tag", "C15_noncanonical_rejected",
         "C15_forgery_needs_fresh_mac", "C15_any_modification_invalid", "C15_tag_or_payload_kept_rejected",
         "C15_kinds_disjoint", "C15_names_disjoint", "C15_minted_cross_role_rejected",
-        "C15_other_keys_rejected", "C15_block_key_not_authenticated",
+        "C15_other_keys_rejected", "C15_block_key_changes_names", "C15_without_binding_block_key_ignored",
         "C15_cache_sound", "C15_source_facts",
         "opaqueMac_ideal", "opaqueMac_opaque", "C15_without_guard_malleable",
     ]] + ["SigModel.Base64.decode_encode", "SigModel.Base64.canonical_iff", "SigModel.Hmac.toyMac_ideal"],
@@ -69,8 +69,8 @@ CONFIG = dict(
                  "C15_minted_cross_role_rejected (a minted public id handed to DecodePrivate and the reverse) additionally assumes "
                  "TagTailOpaque: a tag does not end in '+', '-' or a decimal digit (a MAC value is not text) — explicit hypothesis, "
                  "instance exhibited together with IdealMac; C15_kinds_disjoint (role swap by byte reversal) needs IdealMac only",
-                 "C15_other_keys_rejected is about differing hash keys; key sets differing only in the block key are the open "
-                 "known finding C15-block-key-not-authenticated",
+                 "key sets: (hash key, block key or none); C15_other_keys_rejected covers every pair of different key sets since the "
+                 "cookie names carry MAC(hashKey, 'block-key|' ++ blockKey) (repo fix)",
                  "that nobody without the hash key can compute a tag (unforgeability) is the cryptographic assumption the "
                  "theorems reduce to; it is not proved"],
 )
@@ -78,8 +78,8 @@ CONFIG = dict(
 MANIFEST = dict(
     text="Machine-checked Lean 4 theorems about a byte-level model of SessionIdCodec over the securecookie layout and Go's "
          "lenient base64 decoder, with the MAC as a parameter under an explicit ideal-MAC hypothesis; tied to the code by "
-         "regenerated facts (cookie names per function, reversal, MaxAge, canonical-spelling guard, cache key layout and fill "
-         "order, securecookie version) and a differential run of the real codec and hub cache on mutated and forged ids, "
+         "regenerated facts (cookie names per function and their binding to the block key, reversal, MaxAge, "
+         "canonical-spelling guard, cache key layout and fill order, securecookie version) and a differential run of the real codec and hub cache on mutated and forged ids, "
          "executing a Lean HMAC-SHA256 that is compared with crypto/hmac.",
     note="Trusted: Lean kernel, extractor, harness, securecookie/base64 restatement, AES-CTR and protobuf as oracles. "
          "Unforgeability of HMAC is assumed, not proved.",
